@@ -1,6 +1,7 @@
 import Driver.Registry
 import Driver.Gated
 import Driver.Dispatch
+import Driver.FileSink
 open Driver
 
 def main (args : List String) : IO UInt32 := do
@@ -10,4 +11,5 @@ def main (args : List String) : IO UInt32 := do
   | ["registry"] => loop stdin stdout Driver.Registry.stepLine Evl.Registry.init; return 0
   | ["gated"] => loop stdin stdout Driver.Gated.stepLine {}; return 0
   | ["dispatch"] => loop stdin stdout Driver.Dispatch.stepLine {}; return 0
+  | ["filesink"] => loop stdin stdout Driver.FileSink.stepLine {}; return 0
   | _ => IO.eprintln "usage: evldriver <model>"; return 2
